@@ -315,7 +315,6 @@ func (m *modelSession) stackDesc(hdr string, ref int64, depth int) (*StackDesc, 
 		v, ok := m.valDesc(app("sslot", mem, hdr, fmt.Sprint(k)), depth)
 		if !ok {
 			dbg()
-			dbg()
 		return nil, false
 		}
 		d.Elems = append(d.Elems, v)
@@ -328,6 +327,7 @@ func (m *modelSession) stackDesc(hdr string, ref int64, depth int) (*StackDesc, 
 }
 
 func (m *modelSession) valDesc(term string, depth int) (ValDesc, bool) {
+	m.prefer(fmt.Sprintf("(or (= %s nilv) (and ((_ is v_int) %s) (<= 0 (int_of %s)) (<= (int_of %s) 9)))", term, term, term, term))
 	if !m.ask([]string{term}) {
 		return ValDesc{}, false
 	}
@@ -389,7 +389,6 @@ func (e *Engine) concretise(res *FuncResult, g *Goal, o runOpts) (*Witness, bool
 		sv, ok := res.X.specVarOf(v, "witness")
 		if !ok {
 			dbg()
-			dbg()
 		return nil, false
 		}
 		term := sv.T.S
@@ -398,7 +397,6 @@ func (e *Engine) concretise(res *FuncResult, g *Goal, o runOpts) (*Witness, bool
 		case tk == "Stack" || tk == "*stack":
 			if !m.ask([]string{term}) {
 				dbg()
-			dbg()
 		return nil, false
 			}
 			ref, _ := smtInt(m.vals[term])
@@ -408,13 +406,11 @@ func (e *Engine) concretise(res *FuncResult, g *Goal, o runOpts) (*Witness, bool
 				cs := m.entry("Cell_stack")
 				if cs == "" {
 					dbg()
-			dbg()
 		return nil, false
 				}
 				sd, ok := m.stackDesc(app("select", cs, term), ref, 1)
 				if !ok {
 					dbg()
-			dbg()
 		return nil, false
 				}
 				a.Stack = sd
@@ -423,47 +419,40 @@ func (e *Engine) concretise(res *FuncResult, g *Goal, o runOpts) (*Witness, bool
 			sd, ok := m.stackDesc(term, -1, 1)
 			if !ok {
 				dbg()
-			dbg()
 		return nil, false
 			}
 			a.Stack = sd
 		case sv.T.Sort == SInt && isBasicInt(pt):
 			if !m.ask([]string{term}) {
 				dbg()
-			dbg()
 		return nil, false
 			}
 			n, ok := smtInt(m.vals[term])
 			if !ok {
 				dbg()
-			dbg()
 		return nil, false
 			}
 			a.Lit = fmt.Sprint(n)
 		case sv.T.Sort == SBool:
 			if !m.ask([]string{term}) {
 				dbg()
-			dbg()
 		return nil, false
 			}
 			a.Lit = m.vals[term]
 		case sv.T.Sort == SStr:
 			if !m.ask([]string{term}) {
 				dbg()
-			dbg()
 		return nil, false
 			}
 			s, ok := smtStr(m.vals[term])
 			if !ok {
 				dbg()
-			dbg()
 		return nil, false
 			}
 			a.Lit = strconv.Quote(s)
 		case sv.T.Sort == SBV16 || sv.T.Sort == SBV8:
 			if !m.ask([]string{term}) {
 				dbg()
-			dbg()
 		return nil, false
 			}
 			n, _ := smtBV(m.vals[term])
@@ -472,7 +461,6 @@ func (e *Engine) concretise(res *FuncResult, g *Goal, o runOpts) (*Witness, bool
 			vd, ok := m.valDesc(term, 1)
 			if !ok {
 				dbg()
-			dbg()
 		return nil, false
 			}
 			a.Val = &vd
@@ -480,13 +468,11 @@ func (e *Engine) concretise(res *FuncResult, g *Goal, o runOpts) (*Witness, bool
 			wl := app("s-len", term)
 			if !m.ask([]string{wl}) {
 				dbg()
-			dbg()
 		return nil, false
 			}
 			n, _ := smtInt(m.vals[wl])
 			if n > maxElems {
 				dbg()
-			dbg()
 		return nil, false
 			}
 			mem := m.entry("Mem_Val")
@@ -499,7 +485,6 @@ func (e *Engine) concretise(res *FuncResult, g *Goal, o runOpts) (*Witness, bool
 				vd, ok := m.valDesc(app("sslot", mem, term, fmt.Sprint(k)), 1)
 				if !ok {
 					dbg()
-			dbg()
 		return nil, false
 				}
 				a.Slice = append(a.Slice, vd)
@@ -508,13 +493,11 @@ func (e *Engine) concretise(res *FuncResult, g *Goal, o runOpts) (*Witness, bool
 			wl := app("s-len", term)
 			if !m.ask([]string{wl}) {
 				dbg()
-			dbg()
 		return nil, false
 			}
 			n, _ := smtInt(m.vals[wl])
 			if n > maxElems {
 				dbg()
-			dbg()
 		return nil, false
 			}
 			mem := m.entry("Mem_Int")
@@ -527,7 +510,6 @@ func (e *Engine) concretise(res *FuncResult, g *Goal, o runOpts) (*Witness, bool
 				t := fmt.Sprintf("(select (select %s (s-arr %s)) (+ (s-off %s) %d))", mem, term, term, k)
 				if !m.ask([]string{t}) {
 					dbg()
-			dbg()
 		return nil, false
 				}
 				v, _ := smtInt(m.vals[t])
@@ -538,13 +520,11 @@ func (e *Engine) concretise(res *FuncResult, g *Goal, o runOpts) (*Witness, bool
 			wl := app("s-len", term)
 			if !m.ask([]string{wl}) {
 				dbg()
-			dbg()
 		return nil, false
 			}
 			n, _ := smtInt(m.vals[wl])
 			if n > 2 {
 				dbg()
-			dbg()
 		return nil, false
 			}
 			mem := m.entry("Mem_Bool")
@@ -557,14 +537,12 @@ func (e *Engine) concretise(res *FuncResult, g *Goal, o runOpts) (*Witness, bool
 				t := fmt.Sprintf("(select (select %s (s-arr %s)) (+ (s-off %s) %d))", mem, term, term, k)
 				if !m.ask([]string{t}) {
 					dbg()
-			dbg()
 		return nil, false
 				}
 				lits = append(lits, m.vals[t])
 			}
 			a.Lit = "[]bool{" + strings.Join(lits, ", ") + "}"
 		default:
-			dbg()
 			dbg()
 		return nil, false
 		}
